@@ -140,10 +140,9 @@ func runC05(c *Ctx) {
 				neu := fmt.Sprintf("r%d", fresh)
 				if fresh%4 == 0 {
 					// a respelling in letter case only (still a unique name: the digits keep it apart)
+					// (each name is respelled at most once - to upper case - so that every raw line of the session stays unique)
 					if up := strings.ToUpper(members[i]); up != members[i] {
 						neu = up
-					} else {
-						neu = strings.ToLower(members[i])
 					}
 				}
 				apply("ReNick", members[i], neu)
